@@ -19,7 +19,7 @@ from vlib.oracles import model as M
 from vlib.report import unjson_array
 
 ID = "C15"
-TECHNIQUE = "runtime monitoring: recorder on base_step arguments (py_func), one-sweep saturation probe of the compiled mutation sweep, seeded random_breaks partition monitor, wrapped _denovo_assembler inside DenovoMCMC._mcmc with an independent single-SNV posterior oracle"
+TECHNIQUE = "runtime monitoring: recorder on base_step arguments (py_func), one-sweep saturation probe of the compiled mutation sweep, seeded random_breaks partition monitor, wrapped _denovo_assembler inside DenovoMCMC._mcmc with an independent single-SNV posterior oracle; program level: DenovoMCMC.fit and the sampler wrapped inside mchap assemble --mcmc-fix-homozygous with per-sample ploidy / inbreeding files"
 LEVEL = "exploration"
 LEVEL_TEXT = (
     "Exploration: the mutation sweep is observed for ploidy 1-8 and 1-300 SNVs (covering >127 and >255) both as the "
@@ -35,6 +35,7 @@ RULE = (
     "case = one sweep observation (ploidy, n_sites, seed), one random_breaks call (breaks, n, seed) or one DenovoMCMC fit "
     "(reads, threshold); non-trivial = n_sites > 1; distinct by hash of the parameters"
 )
+LEVEL_TEXT += " At program level (mchap assemble --mcmc-fix-homozygous t on generated BAMs with per-sample ploidy and inbreeding files, incl. deep diploid data whose posteriors saturate to exactly 1.0 with t = 1) the sites reaching the sampler are exactly those the oracle leaves variable, for each sample's own reads, ploidy and inbreeding."
 ASSUMPTIONS = ["reads in the saturation probe give acceptance probability exactly 1 for every 0->1 flip (shown in DESIGN.md C15)"]
 
 SITES = [1, 2, 3, 5, 8, 13, 31, 64, 100, 127, 128, 129, 150, 200, 255, 256, 257, 300]
